@@ -152,7 +152,7 @@ class TEBDEngine(TimeEvolutionAlgorithm):
                 if self.psi.finite and TrotterOrder == 2:
                     self.update_imag(N_steps, call_canonical_form=False)
                 else:
-                    self.evolve(N_steps, delta_tau)
+                    self.trunc_err = self.trunc_err + self.evolve(N_steps, delta_tau)
                 step += N_steps
                 E = np.mean(self.model.bond_energies(self.psi))
                 DeltaE = abs(Eold - E)
@@ -367,8 +367,7 @@ class TEBDEngine(TimeEvolutionAlgorithm):
         for U_idx_dt, odd in self.suzuki_trotter_decomposition(order, N_steps):
             trunc_err += self.evolve_step(U_idx_dt, odd)
         self.evolved_time = self.evolved_time + N_steps * self._U_param['tau']
-        self.trunc_err = self.trunc_err + trunc_err  # not += : make a copy!
-        # (this is done to avoid problems of users storing self.trunc_err after each `evolve`)
+        # note: self.trunc_err is updated in run_evolution()
         return trunc_err
 
     def evolve_step(self, U_idx_dt, odd):
@@ -919,8 +918,7 @@ class RandomUnitaryEvolution(TEBDEngine):
             for odd in [1, 0]:
                 trunc_err += self.evolve_step(0, odd)
         self.evolved_time = self.evolved_time + N_steps * dt
-        self.trunc_err = self.trunc_err + trunc_err  # not += : make a copy!
-        # (this is done to avoid problems of users storing self.trunc_err after each `update`)
+        # note: self.trunc_err is updated in run_evolution()
         return trunc_err
 
 
